@@ -138,6 +138,7 @@ class Heap:
         self.val = {n: z3.Const(f"val_{n}!{tag}", t.val_sort) for n, t in DICT_TYPES.items()}
         self.mem = {n: z3.Const(f"mem_{n}!{tag}", t.mem_sort) for n, t in SET_TYPES.items()}
         self.A0 = z3.Int(f"A0!{tag}")
+        self.base = self.A0  # allocation base: references handed out are base + 0, base + 1, ... (havocked by loops that allocate)
         self.n_alloc = 0
         self.n_blocks = 0
 
@@ -145,12 +146,29 @@ class Heap:
         h = Heap.__new__(Heap)
         h.dom, h.val, h.mem = dict(self.dom), dict(self.val), dict(self.mem)
         h.A0, h.n_alloc, h.n_blocks = self.A0, self.n_alloc, self.n_blocks
+        h.base = self.base
+        if hasattr(self, "block_top"):
+            h.block_top = self.block_top
         return h
 
     def alloc(self):
-        r = self.A0 + self.n_alloc
+        r = self.base + self.n_alloc
         self.n_alloc += 1
         return z3.simplify(r)
+
+    def top(self):
+        """every reference handed out so far is below this bound"""
+        bt = getattr(self, "block_top", None)
+        return bt if bt is not None else self.base + self.n_alloc + 1
+
+    def havoc_alloc(self, interp, tag):
+        """an unknown number of allocations has happened (loop iterations): fresh allocation base above the old top"""
+        old = self.top()
+        nb = z3.Int(f"T!{tag}")
+        interp.assume(nb >= old)
+        self.base, self.n_alloc = nb, 0
+        if hasattr(self, "block_top"):
+            del self.block_top
 
     # dict primitives
     def d_has(self, t, r, k):
